@@ -144,4 +144,14 @@ PROPS = {
         "assumptions": ["RocksDB WriteBatch atomicity and ordering trusted"],
         "trusted_base": ["modelled: update_filter_scripts, update_block_number, matched-block records"],
     },
+    "C06": {
+        "ops": [("c06", "RunC06", {"quick": 60, "thorough": 1200})],
+        "rule": "whole-client worlds (light-client + filter + sync handlers over one store): chains of 38..64 blocks with transaction bodies, real block filters and filter "
+                "hash chains; 1..3 proven peers (real handshake), finalized check points 0..3, cached / latest filter hashes complete, partial or empty, min filtered block "
+                "number anywhere; BlockFilters messages honest and mutated (tampered or foreign filter, shifted start, count mismatch, substituted block hash, empty, "
+                "unproven or unknown sender, swapped entries, other branch, over-long batch); the immediate effect is compared with Model/Filters.v; matched blocks are "
+                "then proven and downloaded through SendBlocksProof / SendBlock and the index is compared with the ground truth of the chain up to every script's recorded number",
+        "assumptions": ["calc_filter_hash collision-free (a pair outside the supplied table hashes to a value no expected hash equals)", "GCS filter matching is an oracle (golomb-coded-set)"],
+        "trusted_base": ["modelled: BlockFiltersProcess::execute, check_filters_data, could_request_more_block_filters, cached-hash reset"],
+    },
 }
